@@ -24,15 +24,18 @@ def _ref_fits(case, s, kind):
     from pyvaporation import Measurements, find_best_fit
 
     o = case["orders"]
-    single = len(s.curves.diffusion_curves) == 1
+    # the reference fits come from a curve set built afresh from the case, never from the object that was handed to the model
+    # (a model that rewrites the caller's curves would otherwise move the reference along with itself)
+    fresh = procs.build_curve_set(case["curves"], s.mix)
+    single = len(fresh.diffusion_curves) == 1
     if single:
         iz = case.get("include_zero", False) if kind == "nonideal-curve" else False
         m1 = m2 = 0
     else:
         iz = case.get("include_zero", False)
         m1, m2 = o["m1"], o["m2"]
-    f1 = find_best_fit(Measurements.from_diffusion_curves_first(s.curves), include_zero=iz, component_index=0, n=o["n1"], m=m1)
-    f2 = find_best_fit(Measurements.from_diffusion_curves_second(s.curves), include_zero=iz, component_index=1, n=o["n2"], m=m2)
+    f1 = find_best_fit(Measurements.from_diffusion_curves_first(fresh), include_zero=iz, component_index=0, n=o["n1"], m=m1)
+    f2 = find_best_fit(Measurements.from_diffusion_curves_second(fresh), include_zero=iz, component_index=1, n=o["n2"], m=m2)
     return f1, f2, single
 
 
